@@ -13,15 +13,15 @@ CFG = cfg('C08', refine=['Refine_subarea'], extra=['Props/C08_refuted.vo'], extr
           assumptions=['compression codecs (zlib, bz2) are primitives; ciphertext bodies are opaque octets for the codec'])
 
 TEXT = ('Rocq theorems (Props/C08.v, closed): one generic round-trip theorem dec_enc for the format-combinator language (big-endian fields, '
-        'fixed octets, constants, MPIs, length-prefixed regions with n-octet and new-format lengths, repetition) by induction on fuel with fuel '
+        'fixed octets, constants, MPIs, length-prefixed regions with n-octet, new-format packet and subpacket (192..254 = two octets) lengths, repetition) by induction on fuel with fuel '
         'sufficiency in the statement: for every format term, value and trailing data, decoding the encoding returns the value and leaves exactly '
-        'the trailing data; every packet type of Model/Packets.v (62 format terms: PKESK, signature v4 with subpacket areas, SKESK, one-pass, public '
+        'the trailing data; every packet type of Model/Packets.v (71 format terms: PKESK, signature v4 with subpacket areas, SKESK, one-pass, public '
         'keys/subkeys of 6 algorithms, compressed, SED, marker, literal, user id, user attribute, SEIPD, MDC, opaque) is a self-delimiting instance, '
         'and the emitted header carries exactly the body length. The foreign-input half (old-format / partial framings, GnuPG fixtures) is decided on '
         'the implementation by the correspondence run, and for the two subpacket areas of a signature by Model/SubArea.v: an accepted packet\'s areas '
         'are re-exported octet for octet whatever encodings the producer chose (C08_subpacket_areas_verbatim, _fixed_point; the pre-repair rule refuted). '
         'Foreign input normalises once, as a theorem for the modelled formats (Model/FmtStrict.v, Proofs/Fmt_lemmas2.v): every encoding the decoder accepts with complete, encodable multiprecision '
-        'integers and no partial body lengths (any length form, any bit count covering leading zeros) re-serialises to a defined packet, not longer, that parses back to the same value and is a fixed point '
+        'integers and no first length octet 224..254 (any other length form, any bit count covering leading zeros) re-serialises to a defined packet, not longer, that parses back to the same value and is a fixed point '
         '(C08_foreign_normalises_once_partial; C08_strict_accepts_own_output; the three ways the unrestricted statement fails are closed witnesses in C08_foreign_normalises_once_refuted).',
         'DESIGN.md 5 C08',
         'machine-checked proof in Rocq (Coq 8.16.1) + extracted-model correspondence + implementation round-trip enumeration')
